@@ -17,10 +17,13 @@ structure Sh where
   data : List Nat           -- `capacity` cells
   hasProducer : Bool
   hasConsumer : Bool
+  log    : List Nat         -- ghost: value published at position i
+  popped : List Nat         -- ghost: values returned by `pop`, in return order
 deriving Repr
 
 def Sh.init (cap : Nat) : Sh :=
-  { cap := cap, wp := 0, rp := 0, data := List.replicate cap 0, hasProducer := true, hasConsumer := true }
+  { cap := cap, wp := 0, rp := 0, data := List.replicate cap 0, hasProducer := true, hasConsumer := true,
+    log := [], popped := [] }
 
 /-- operations a thread may issue -/
 inductive Cmd where
@@ -43,9 +46,26 @@ deriving Repr, DecidableEq
 structure Th where
   pc   : PC
   todo : List Cmd
+  holdsP : Bool := false     -- owns the `Producer` object (obtained from `acquire_producer`)
+  holdsC : Bool := false     -- owns the `Consumer` object
 deriving Repr
 
 def Th.init (prog : List Cmd) : Th := { pc := .idle, todo := prog }
+
+/-- The Rust API only lets the owner of the `Producer` (`Consumer`) object push (pop) or release
+the role; a command the thread cannot issue is skipped without any memory access. -/
+def enabled (holdsP holdsC : Bool) : Cmd → Bool
+  | .push _ => holdsP
+  | .pop => holdsC
+  | .releaseProducer => holdsP
+  | .releaseConsumer => holdsC
+  | .acquireProducer => !holdsP
+  | .acquireConsumer => !holdsC
+  | _ => true
+
+def nextCmd (holdsP holdsC : Bool) : List Cmd → Option (Cmd × List Cmd)
+  | [] => none
+  | c :: rest => if enabled holdsP holdsC c then some (c, rest) else nextCmd holdsP holdsC rest
 
 def b2n (b : Bool) : Nat := if b then 1 else 0
 
@@ -71,50 +91,51 @@ def posResult (s : Sh) (k : Cmd) (w r : Nat) : String :=
   | .isFull => s!"is_full {decide (w = r + s.cap)}"
   | _ => s!"is_empty {decide (w = r)}"
 
-/-- one atomic step of one thread -/
+/-- one atomic step of a thread that is inside an operation -/
+def stepPC (fl : Flavour) (s : Sh) (t : Th) : Option (Sh × Th × List Ev) :=
+  match t.pc with
+  | .idle => none
+  | .pushLdW v => some (s, { t with pc := .pushLdR v s.wp }, [.load "wp" fl.pushLdWOrd s.wp])
+  | .pushLdR v w =>
+      if w = s.rp + s.cap then some (s, { t with pc := .idle }, [.load "rp" fl.pushLdROrd s.rp, .ret "push false"])
+      else some (s, { t with pc := .pushDist v w }, [.load "rp" fl.pushLdROrd s.rp])
+  | .pushDist v w => some (s, { t with pc := .pushCell v w }, [.load "dist" .rlx 0])
+  | .pushCell v w => some ({ s with data := s.data.set (w % s.cap) v }, { t with pc := .pushStW v w }, [.cell s!"data[{w % s.cap}]"])
+  | .pushStW v w => some ({ s with wp := w + 1, log := s.log ++ [v] }, { t with pc := .idle }, [.store "wp" .rel (w + 1), .ret "push true"])
+  | .popLdR => some (s, { t with pc := .popLdW s.rp }, [.load "rp" .rlx s.rp])
+  | .popLdW r =>
+      if r = s.wp then some (s, { t with pc := .idle }, [.load "wp" .acq s.wp, .ret "pop none"])
+      else some (s, { t with pc := .popDist r }, [.load "wp" .acq s.wp])
+  | .popDist r => some (s, { t with pc := .popCell r }, [.load "dist" .rlx 0])
+  | .popCell r => some (s, { t with pc := .popStR r (s.data.getD (r % s.cap) 0) }, [.cell s!"data[{r % s.cap}]"])
+  | .popStR r x => some ({ s with rp := r + 1, popped := s.popped ++ [x] }, { t with pc := .idle }, [.store "rp" .rel (r + 1), .ret s!"pop some:{x}"])
+  | .posW1 k => some (s, { t with pc := .posR1 k s.wp }, [.load "wp" .rlx s.wp])
+  | .posR1 k w => some (s, { t with pc := .posW2 k w s.rp }, [.load "rp" .rlx s.rp])
+  | .posW2 k w r =>
+      -- `w == wp.load() && r == rp.load()`: the second load is skipped when the first comparison fails
+      if w = s.wp then some (s, { t with pc := .posR2 k w r true }, [.load "wp" .rlx s.wp])
+      else some (s, { t with pc := .posW1 k }, [.load "wp" .rlx s.wp])
+  | .posR2 k w r _ =>
+      if r = s.rp then some (s, { t with pc := .idle }, [.load "rp" .rlx s.rp, .ret (posResult s k w r)])
+      else some (s, { t with pc := .posW1 k }, [.load "rp" .rlx s.rp])
+  | .acqP =>
+      if s.hasProducer then some ({ s with hasProducer := false }, { t with pc := .idle, holdsP := true }, [.cas "has_producer" .acq .rlx 1 0 true, .ret "acquire_producer true"])
+      else some (s, { t with pc := .idle }, [.cas "has_producer" .acq .rlx 0 0 false, .ret "acquire_producer false"])
+  | .relP => some ({ s with hasProducer := true }, { t with pc := .idle, holdsP := false }, [.store "has_producer" .rel 1, .ret "release_producer"])
+  | .acqC =>
+      if s.hasConsumer then some ({ s with hasConsumer := false }, { t with pc := .idle, holdsC := true }, [.cas "has_consumer" .acq .rlx 1 0 true, .ret "acquire_consumer true"])
+      else some (s, { t with pc := .idle }, [.cas "has_consumer" .acq .rlx 0 0 false, .ret "acquire_consumer false"])
+  | .relC => some ({ s with hasConsumer := true }, { t with pc := .idle, holdsC := false }, [.store "has_consumer" .rel 1, .ret "release_consumer"])
+
+/-- one atomic step of one thread; dispatching the next operation is not a memory access, so the
+first access of the operation is performed right away -/
 def step (fl : Flavour) (s : Sh) (t : Th) : Option (Sh × Th × List Ev) :=
   match t.pc with
   | .idle =>
-      match t.todo with
-      | [] => none
-      | c :: rest => -- dispatching is not a memory access: perform the first access of the op right away
-        stepPC fl s { pc := start c, todo := rest }
+      match nextCmd t.holdsP t.holdsC t.todo with
+      | none => none
+      | some (c, rest) => stepPC fl s { t with pc := start c, todo := rest }
   | _ => stepPC fl s t
-where
-  stepPC (fl : Flavour) (s : Sh) (t : Th) : Option (Sh × Th × List Ev) :=
-    match t.pc with
-    | .idle => none
-    | .pushLdW v => some (s, { t with pc := .pushLdR v s.wp }, [.load "wp" fl.pushLdWOrd s.wp])
-    | .pushLdR v w =>
-        if w = s.rp + s.cap then some (s, { t with pc := .idle }, [.load "rp" fl.pushLdROrd s.rp, .ret "push false"])
-        else some (s, { t with pc := .pushDist v w }, [.load "rp" fl.pushLdROrd s.rp])
-    | .pushDist v w => some (s, { t with pc := .pushCell v w }, [.load "dist" .rlx 0])
-    | .pushCell v w => some ({ s with data := s.data.set (w % s.cap) v }, { t with pc := .pushStW v w }, [.cell s!"data[{w % s.cap}]"])
-    | .pushStW _ w => some ({ s with wp := w + 1 }, { t with pc := .idle }, [.store "wp" .rel (w + 1), .ret "push true"])
-    | .popLdR => some (s, { t with pc := .popLdW s.rp }, [.load "rp" .rlx s.rp])
-    | .popLdW r =>
-        if r = s.wp then some (s, { t with pc := .idle }, [.load "wp" .acq s.wp, .ret "pop none"])
-        else some (s, { t with pc := .popDist r }, [.load "wp" .acq s.wp])
-    | .popDist r => some (s, { t with pc := .popCell r }, [.load "dist" .rlx 0])
-    | .popCell r => some (s, { t with pc := .popStR r (s.data.getD (r % s.cap) 0) }, [.cell s!"data[{r % s.cap}]"])
-    | .popStR r x => some ({ s with rp := r + 1 }, { t with pc := .idle }, [.store "rp" .rel (r + 1), .ret s!"pop some:{x}"])
-    | .posW1 k => some (s, { t with pc := .posR1 k s.wp }, [.load "wp" .rlx s.wp])
-    | .posR1 k w => some (s, { t with pc := .posW2 k w s.rp }, [.load "rp" .rlx s.rp])
-    | .posW2 k w r =>
-        -- `w == wp.load() && r == rp.load()`: the second load is skipped when the first comparison fails
-        if w = s.wp then some (s, { t with pc := .posR2 k w r true }, [.load "wp" .rlx s.wp])
-        else some (s, { t with pc := .posW1 k }, [.load "wp" .rlx s.wp])
-    | .posR2 k w r _ =>
-        if r = s.rp then some (s, { t with pc := .idle }, [.load "rp" .rlx s.rp, .ret (posResult s k w r)])
-        else some (s, { t with pc := .posW1 k }, [.load "rp" .rlx s.rp])
-    | .acqP =>
-        if s.hasProducer then some ({ s with hasProducer := false }, { t with pc := .idle }, [.cas "has_producer" .acq .rlx 1 0 true, .ret "acquire_producer true"])
-        else some (s, { t with pc := .idle }, [.cas "has_producer" .acq .rlx 0 0 false, .ret "acquire_producer false"])
-    | .relP => some ({ s with hasProducer := true }, { t with pc := .idle }, [.store "has_producer" .rel 1, .ret "release_producer"])
-    | .acqC =>
-        if s.hasConsumer then some ({ s with hasConsumer := false }, { t with pc := .idle }, [.cas "has_consumer" .acq .rlx 1 0 true, .ret "acquire_consumer true"])
-        else some (s, { t with pc := .idle }, [.cas "has_consumer" .acq .rlx 0 0 false, .ret "acquire_consumer false"])
-    | .relC => some ({ s with hasConsumer := true }, { t with pc := .idle }, [.store "has_consumer" .rel 1, .ret "release_consumer"])
 
 def sys (fl : Flavour := {}) : Sys Sh Th := { step := step fl }
 
